@@ -50,17 +50,22 @@ void NiGeometryData::Sync(NiStreamReversible& stream) {
 			stream.Sync(vertices[i]);
 	}
 
-	// Disable tangent flag for OB
+	// Disable tangent flag for OB (in the synced value only: when writing, the flags of the
+	// live object keep describing its data, so a later save still finds the tangents)
+	uint16_t syncDataFlags = dataFlags;
 	if (stream.GetVersion().IsOB())
-		dataFlags &= ~(1 << 12);
+		syncDataFlags &= ~(1 << 12);
 
 	if (stream.GetVersion().File() >= NiFileVersion::V10_0_1_0)
-		stream.Sync(dataFlags);
+		stream.Sync(syncDataFlags);
 
-	uint16_t nbtMethod = dataFlags & 0xF000;
-	uint8_t numTextureSets = dataFlags & 0x3F;
+	if (stream.GetMode() == NiStreamReversible::Mode::Reading)
+		dataFlags = syncDataFlags;
+
+	uint16_t nbtMethod = syncDataFlags & 0xF000;
+	uint8_t numTextureSets = syncDataFlags & 0x3F;
 	if (stream.GetVersion().Stream() >= 34)
-		numTextureSets = dataFlags & 0x1;
+		numTextureSets = syncDataFlags & 0x1;
 
 	if (stream.GetVersion().File() == NiFileVersion::V20_2_0_7 && stream.GetVersion().Stream() > 34)
 		stream.Sync(materialCRC);
